@@ -49,6 +49,12 @@ CHECKS = {
   note="Model-guided generation, not coverage-guided fuzzing; memory safety is outside TLA+. Validity is evaluated by TLC on the rank-compressed shape of the parser's result.",
   technique="TLA+ generator grammar enumerated by TLC, rendered and fed to the real parser; TLC trace validation of the recorded outcomes",
   design_ref="DESIGN.md 5/C02"),
+ "C08": dict(
+  category="model_checking",
+  text="Orders.tla writes every output ordering as its key tuple and models the runtime's freedom explicitly (Iterate: any arrival order; Sort: any arrangement without inversion); TLC checks StrictTotalOrder, Deterministic and KeysSeparate for every set drawn from tie-rich attribute domains, and shows that the comparator shape the code had (`if a != b return |a|>|b|`) violates them. Every set is then sorted by the real Nodes.Sort / EdgeMap.Sort / SortTags from every input permutation (edges from repeatedly rebuilt maps): identical outputs, ordered by the pinned keys. Whole pipeline: 8 tie-rich profiles x 15 format/option combinations rendered 12-24 times in-process, 3 formats under opposite fetch completion orders, and fresh pprof processes run 3 times per (profile, format); all bytes must agree.",
+  note="Go map seeds cannot be enumerated for whole-pipeline runs (sampled by repetition); comparators are covered exhaustively over input permutations for the enumerated domains.",
+  technique="TLA+ order spec model-checked by TLC; enumerated tie-rich sets replayed on the real comparators under all permutations; repeated-run byte comparison of the pipeline",
+  design_ref="DESIGN.md 5/C08"),
 }
 
 NOT_YET = "check not built yet in this session (planned in DESIGN.md section 5)"
